@@ -69,11 +69,16 @@ class RigError(Exception):
 
 
 class VirtualLoop(asyncio.SelectorEventLoop):
-    """Time only moves when nothing is runnable and no socket is ready: it then jumps to the next timer."""
+    """Time only moves when nothing is runnable and no socket is ready: it then jumps to the next
+    timer.  A busy `await sleep(0)` loop (the passive wait of `_establish`) never leaves the ready
+    queue empty: after SPIN such iterations time is allowed to pass as well."""
+
+    SPIN = 50
 
     def __init__(self) -> None:
         super().__init__(selectors.DefaultSelector())
         self._vnow = 1_000_000.0
+        self._busy = 0
 
     def time(self) -> float:
         return self._vnow
@@ -83,12 +88,16 @@ class VirtualLoop(asyncio.SelectorEventLoop):
             h = heapq.heappop(self._scheduled)
             h._scheduled = False
             self._timer_cancelled_count = max(0, self._timer_cancelled_count - 1)
-        if not self._ready and self._scheduled:
+        self._busy = self._busy + 1 if self._ready else 0
+        if (not self._ready or self._busy > self.SPIN) and self._scheduled:
+            before = len(self._ready)
             events = self._selector.select(0)
             if events:
                 self._process_events(events)
-            elif self._scheduled[0]._when > self._vnow:
+            if len(self._ready) == before and self._scheduled[0]._when > self._vnow:
+                # nothing became runnable (or only a busy loop is running): time passes
                 self._vnow = self._scheduled[0]._when
+                self._busy = 0
         super()._run_once()
 
 
